@@ -82,6 +82,8 @@ impl Property for C06 {
             .into_iter()
             // a guarded scenario stays clear of the static trigger while shrinking
             .filter(|c| !(sc.guarded && d.zero_window && gen::trigger_zero_window(c)))
+            .filter(|c| !(sc.guarded && d.no_timewait && gen::trigger_no_timewait(c)))
+            .filter(|c| !(sc.guarded && d.zw_refused && gen::trigger_zw_refused(c)))
             .collect()
     }
 
@@ -152,6 +154,9 @@ mod tests {
             ("c", crate::wirekit::gen::canary_lost_hsack()),
             ("d", crate::wirekit::gen::canary_hs_budget()),
             ("e", crate::wirekit::gen::canary_hs_data()),
+            ("f1", crate::wirekit::gen::canary_no_timewait(false)),
+            ("f2", crate::wirekit::gen::canary_no_timewait(true)),
+            ("g", crate::wirekit::gen::canary_zw_refused()),
         ] {
             let out = run_conn(&s, false);
             println!("canary {n}: {:?} {}", out.v6.as_ref().map(|v| v.class.clone()), serde_json::to_string(&s).unwrap());
